@@ -81,6 +81,7 @@ func (s *State) Assume(t Term) {
 func (s *State) Branch(t Term) { s.reach = And(s.reach, t) }
 
 type Frame struct {
+	rangeMap map[*ssa.Range]string // map value term at the start of a range over a string-keyed map
 	vc       *VC
 	fn       *ssa.Function
 	vals     map[ssa.Value]Val
